@@ -79,10 +79,14 @@ ANY = "ANY"
 
 
 class Model:
-    def __init__(self, shape, auto=False):
+    def __init__(self, shape, auto=False, grid=False):
         """shape: dict name -> dict(kind, must_finish, next, first) ; kind in state|timed|default"""
         self.shape = shape
         self.auto = auto
+        # strict boundary verdicts only in cases whose every clock value lies on the 1/64 s grid by construction:
+        # a start time that merely happens to be a grid multiple in microseconds may carry the float error of an
+        # earlier off-grid clock reading (found by the thorough tier at FPGA time 5.7e4 s, see DESIGN.md)
+        self.grid = grid
         self.first = [n for n, s in shape.items() if s.get("first")][0]
         d = [n for n, s in shape.items() if s["kind"] == "default"]
         self.default = d[0] if d else None
@@ -170,7 +174,7 @@ class Model:
                     verdict = True
                 elif tm < exp:
                     verdict = False
-                elif m.grid_ok and now % GRID == 0 and cur.s % GRID == 0 and cur.d % GRID == 0:
+                elif self.grid and m.grid_ok and now % GRID == 0 and cur.s % GRID == 0 and cur.d % GRID == 0:
                     verdict = False    # exact landing, every operand exactly representable: tm <= s+d still runs
                     p.events.append("exact-landing-strict")
                 else:
